@@ -14,7 +14,8 @@ LEVEL = "exploration"
 RULE = ("Hypothesis-generated process tensors: hand-built from ancilla environments (rank-4, rank-3, Liouville-rotated with "
         "transforms, Hilbert-rotated rank-3 with transforms, with and without dt, lengths 1..8, bond dimension 1..9) and "
         "PT-TEMPO tensors (diagonal and rotated coupling), printable unicode names/descriptions; export -> import as "
-        "'file' and as 'simple' (and re-export of the file object); PT-TEMPO writing directly to a file vs in memory. "
+        "'file' and as 'simple' (and re-export of the file object; 1/3 of the exports overwrite a file that holds another tensor of other length and "
+        "time step); PT-TEMPO writing directly to a file vs in memory. "
         "Oracle: the original object - len, dt, dimension, transforms, name, description, every MPO tensor (transformed and "
         "raw), every cap, bond dimensions, initial tensor None (bitwise for stored data) - and identical results (1e-12) in "
         "every consumer (compute_dynamics, compute_correlations, state_gradient, PtTebd), alone and (1/3 of the cases) "
@@ -51,6 +52,9 @@ def s_case(draw, tier):
     # (several environments in one computation; alternating reads from two open files)
     if draw(st.integers(0, 2)) == 0:
         c["companion"] = draw(ancgen.env_spec(2, N, e_max=3))
+    # the export goes to a name that already holds ANOTHER process tensor (other length, other / no dt) and overwrites it
+    if draw(st.integers(0, 2)) == 0:
+        c["overwrite_over"] = {"env": draw(ancgen.env_spec(2, 3, e_max=2)), "dt": draw(st.sampled_from([None, 0.05, 0.4]))}
     return c
 
 
@@ -175,14 +179,25 @@ def run_case(case):
             if case["direct_file"]:
                 out.label("direct-file")
                 f2 = os.path.join(tmp, "direct.hdf5")
+                kw_ow = {}
+                if case.get("overwrite_over"):
+                    ow = case["overwrite_over"]
+                    ancgen.build_env(ow["env"], 2, 3, dt=ow["dt"], name="previous content", description="old")["pt"].export(f2)
+                    kw_ow = {"overwrite": True}
                 direct = oqupy.pt_tempo_compute(bath, 0.0, t_end, par, process_tensor_file=f2, name=case["name"],
-                                                description=case["description"], progress_type="silent")
+                                                description=case["description"], progress_type="silent", **kw_ow)
                 opened.append(direct)
         bd = np.asarray(orig.get_bond_dimensions())
         out.nontrivial = len(orig) >= 2 and bd.max() >= 2
         out.label("import=" + str(case["import_type"]), "consumer=" + case["consumer"], f"maxbond={int(min(bd.max(), 9))}")
         fn = os.path.join(tmp, "pt.hdf5")
-        orig.export(fn)
+        if case.get("overwrite_over"):
+            out.label("export-overwrites-another-tensor")
+            ow = case["overwrite_over"]
+            ancgen.build_env(ow["env"], 2, 3, dt=ow["dt"], name="previous content", description="old")["pt"].export(fn)
+            orig.export(fn, overwrite=True)
+        else:
+            orig.export(fn)
         new = oqupy.import_process_tensor(fn, case["import_type"])
         opened.append(new)
         compare_pts(out, "roundtrip", orig, new)
@@ -217,6 +232,10 @@ def run_case(case):
             else:
                 # two runs of the algorithm may differ by a gauge on the bonds (signs of singular vectors), so the
                 # comparison is gauge invariant: multilinear probes of every prefix closed with its cap
+                if (direct.dt is None) != (orig.dt is None) or (orig.dt is not None and float(direct.dt) != float(orig.dt)):
+                    out.fail("direct-file/dt", f"{direct.dt!r} vs {orig.dt!r}")
+                if direct.name != orig.name or direct.description != orig.description:
+                    out.fail("direct-file/name-description", f"{direct.name!r}/{direct.description!r} vs {orig.name!r}/{orig.description!r}")
                 pa, pb = probe_pt(orig), probe_pt(direct)
                 ttol = 1000.0 * (len(orig) + 1) * 1e-8 + 1e-7      # two separate truncating runs
                 out.check_close("direct-file/probes", pb, pa, ttol * max(1.0, float(np.abs(pa).max())),
